@@ -441,6 +441,33 @@ func c17R6(c *Ctx) {
 		}
 	})
 	c.check(timer, "connect/timer-arm", c.pos(g.Pos()), "the wait for the connect goroutine has a timer arm", "the wait for the tunnel has no timer arm")
+	// the grace period covers the dial too: the connector is called by the goroutine that is waited for, never by the
+	// function that does the timed wait (a connector that blocks would hold tunnelInitWG, and with it sendAction, for as long as it likes)
+	nDial := 0
+	for _, h := range withAnons(c.fn("trzszTransfer.connectToTunnel")) {
+		for _, ci := range callsIn(h, idIs("dynamic")) {
+			if !isVar("connector")(ci.Common().Value) {
+				continue
+			}
+			nDial++
+			waited := h != g && h.Parent() == g
+			if waited {
+				// launched with go from g before the select
+				waited = false
+				eachInstr(g, func(in ssa.Instruction) {
+					if gi, ok := in.(*ssa.Go); ok {
+						if mc, ok := gi.Call.Value.(*ssa.MakeClosure); ok && mc.Fn == h {
+							waited = true
+						}
+					}
+				})
+			}
+			c.check(waited, "connect/dial-under-grace-timer", c.ipos(ci), "the connector is called in the goroutine the timed wait waits for", "the connector is called outside the goroutine covered by the one-second wait: a dial that blocks delays the in-band fallback without bound")
+		}
+	}
+	if nDial == 0 {
+		c.undecided("connect/dial-under-grace-timer", "no call of the connector found")
+	}
 	// Add(1) before go in connectToTunnel
 	p := c.fn("trzszTransfer.connectToTunnel")
 	var add, gostmt ssa.Instruction
